@@ -398,7 +398,7 @@ func Check(r *ev.Run, replay string) {
 		fmt.Fprintf(os.Stderr, "c19 timing: partW %.1fs\n", time.Since(t0).Seconds())
 	}
 	partC(r, stride)
-	r.Set("rule", fmt.Sprintf("W: every function/method discovered on modules strings, strconv, math, bytes, base64, filepath, regexp (+regexp object), json.valid, string methods, byte_slice methods x ALL argument tuples over the per-parameter pools (strings %d values incl. invalid UTF-8, NUL, 300 x 'a'; ints %d incl. Min/MaxInt64; floats %d incl. NaN, +-Inf, -0, denormal; byte slices %d; bytes-like %d; string lists %d; numeric strings %d; paths %d; globs %d; regexp patterns %d; base64 inputs %d) for every accepted arity (up to 4 parameters), each through the object API and every %d-th (thorough: every) tuple through generated scripts; compared with the direct Go call (floats bit-wise, NaN==NaN). C: codecs base64/base32/hex/gzip/urlquery x all pool values, json x every value of depth <= 2 (lists/maps of width <= 2 over 34 scalars and, at depth 2, over the 2428 values of depth <= 1; quick: the second element at depth 2 ranges over the scalars only), object route all, script route all up to depth 1 and every 5th (thorough: 16th) at depth 2; malformed = all strings of length <= 4 over {A,=,!,\\xff,%%,z} per codec as string and as byte_slice, plus codec-specific sets (json: length <= 4 over 10 JSON symbols; base32: length <= 8 over {A,7,=,!}; gzip: every prefix and every single-byte substitution of a valid stream); json codec vs json.marshal/unmarshal on all of those. distinct = distinct (target, expected result) pairs",
+	r.Set("rule", fmt.Sprintf("W: every function/method discovered on modules strings, strconv, math, bytes, base64, filepath, regexp (+regexp object), json.valid, string methods, byte_slice methods x ALL argument tuples over the per-parameter pools (strings %d values incl. invalid UTF-8, NUL, 300 x 'a'; ints %d incl. Min/MaxInt64; floats %d incl. NaN, +-Inf, -0, denormal; byte slices %d; bytes-like %d; string lists %d; numeric strings %d; paths %d; globs %d; regexp patterns %d; base64 inputs %d) for every accepted arity (up to 4 parameters), each through the object API and every %d-th (thorough: every) tuple through generated scripts; compared with the direct Go call (floats bit-wise, NaN==NaN). C: codecs base64/base32/hex/gzip/urlquery x all pool values, json x every value of depth <= 2 (lists/maps of width <= 2 over 35 scalars and, at depth 2, over the 2569 values of depth <= 1; quick: the second element at depth 2 ranges over the scalars only), object route all, script route all up to depth 1 and every 5th (thorough: 16th) at depth 2; malformed = all strings of length <= 4 over {A,=,!,\\xff,%%,z} per codec as string and as byte_slice, plus codec-specific sets (json: length <= 4 over 10 JSON symbols; base32: length <= 8 over {A,7,=,!}; gzip: every prefix and every single-byte substitution of a valid stream); json codec vs json.marshal/unmarshal on all of those. distinct = distinct (target, expected result) pairs",
 		len(poolS), len(poolI), len(poolF), len(poolB), len(poolBL), len(poolSL), len(poolNumStr), len(poolPath), len(poolGlob), len(poolPat), len(poolB64In), stride))
 }
 
